@@ -574,7 +574,45 @@ def check_adapter(case, res):
 # ---------------------------------------------------------------------------
 
 
+class _debug_logging:
+    """Runs a case with the library's logger at DEBUG (records discarded): a deployment option that makes the
+    library format every frame it logs."""
+
+    def __init__(self, on):
+        self.on = on
+
+    def __enter__(self):
+        import logging
+        self.lg = logging.getLogger('pyrsocket')
+        self.saved = (self.lg.level, self.lg.propagate, list(self.lg.handlers))
+        self.disabled = logging.root.manager.disable
+        if self.on:
+            logging.disable(logging.NOTSET)       # the runner silences all logging; this logger only discards
+            self.lg.setLevel(logging.DEBUG)
+            self.lg.propagate = False
+            self.lg.handlers = [logging.NullHandler()]
+
+    def __exit__(self, *a):
+        import logging
+        logging.disable(self.disabled)
+        self.lg.setLevel(self.saved[0])
+        self.lg.propagate = self.saved[1]
+        self.lg.handlers = self.saved[2]
+
+
 def run_case(gen, idx, rng, tier):
+    debug = gen in ('hostile-frames', 'failing-app') and rng.random() < 0.25
+    with _debug_logging(debug):
+        r = _run_case(gen, idx, rng, tier)
+    if debug and isinstance(r.get('sample'), dict):
+        r['sample']['debug_logging'] = True
+        for w in r.get('witnesses', ()):
+            w['detail']['debug_logging'] = True
+        r.setdefault('counts', {})['runs_with_debug_logging'] = 1
+    return r
+
+
+def _run_case(gen, idx, rng, tier):
     assert_repo()
     from .. import vloop, mixgen
     from ..runner import short_hash
